@@ -25,6 +25,9 @@ func propC19(c *Ctx, r *Report) {
 	r.Clauses = append(r.Clauses, "nested comment delimiters (E20): in the lexer method that tracks block-comment nesting, every branch that increments or decrements the nesting counter consumes exactly two characters (advance() in the branch or in the enclosing switch's init statement, successful match() in the condition)")
 	c.runNestDelim(r, "lex.nestdelim")
 	r.floor("lex.nestdelim", 2)
+	r.Clauses = append(r.Clauses, headerSemiClause)
+	c.runHeaderSemicolon(r, "parse.headersemi", "wgsl/internal/parser")
+	r.floor("parse.headersemi", 8)
 	r.Clauses = append(r.Clauses, "block-scoped local names in dependency ordering (E7): the function of the parser's dependency collector that walks the statements of a block gives them a set of local names of its own, so a name declared inside a block does not hide a module-scope declaration after the block (acceptance must not depend on declaration order)")
 	c.runDepBlockScope(r, "scope.depblock")
 	r.floor("scope.depblock", 1)
